@@ -44,7 +44,7 @@ impl Check for C11e3 {
         "C11"
     }
     fn rule(&self) -> String {
-        "replica-pipeline part: scenario i = group x shape x potential x settings x R = 2..5 replicas, W = 1..16 simulated workers, seeded schedule, short writes and pre-emption at every file create/write of main.rs; per scenario K executions of the real analyse_state; after each the written JSON is read back, its SVG regenerated and compared byte for byte with the written SVG, and the JSON re-serialised. Non-trivial: an execution had >= 2 active workers or a short write. Distinct: hash of the written files and schedule statistics.".into()
+        "replica-pipeline part: scenario i = group x shape x potential x settings x R = 2..5 replicas, W = 1..16 simulated workers, seeded schedule, short writes and pre-emption at every file create/write of main.rs; per scenario K executions of the real analyse_state; after each the written JSON is read back, its SVG regenerated and compared byte for byte with the written SVG, and the JSON re-serialised. A quarter of the scenarios put a directory or a /dev/full symlink where the JSON or the SVG is to be written: an execution that then reports success must still have written both files. Non-trivial: an execution had >= 2 active workers or a short write. Distinct: hash of the written files and schedule statistics.".into()
     }
     fn runs(&self, tier: Tier) -> u64 {
         match tier {
@@ -65,6 +65,9 @@ impl Check for C11e3 {
         let mut sc = gen_rep_scenario(rng, 5);
         sc.replicas = rng.range_u64(2, 5);
         sc.steps = *rng.pick(&[0u64, 1, 20, 50]);
+        if rng.chance(0.25) {
+            sc.out_fault = rng.pick(&["eisdir-json", "eisdir-svg", "enospc-json", "enospc-svg"]).to_string();
+        }
         sc.to_json()
             .set("workers", J::uint(*rng.pick(&[2u64, 2, 3, 4, 8, 16])))
             .set("yield_gap", J::uint(*rng.pick(&[0u64, 1000, 100])))
@@ -101,6 +104,10 @@ impl Check for C11e3 {
             if r.stats.workers_that_ran_items >= 2 || r.stats.short_writes > 0 {
                 out.nontrivial = true;
             }
+            if sc.out_fault != "none" {
+                out.count(&format!("fault.F-disk/{}", sc.out_fault), 1);
+                out.count("probe.runs_that_failed_under_a_disk_fault", r.error.is_some() as u64);
+            }
             if let Some(e) = &r.error {
                 if e.starts_with("HARNESS") {
                     return Err(e.clone());
@@ -109,7 +116,15 @@ impl Check for C11e3 {
             }
             let (js, sv) = match (&r.json, &r.svg) {
                 (Some(a), Some(b)) => (a, b),
-                _ => continue,
+                (a, b) => {
+                    // analyse_state reported success: the structure and its picture must both be there
+                    out.violate(Violation::new(
+                        "cli-success-without-the-pair",
+                        it as u64,
+                        format!("schedule {}: analyse_state returned Ok but the JSON file is {} and the SVG file is {} (output path fault: {})", it, if a.is_some() { "present" } else { "missing" }, if b.is_some() { "present" } else { "missing" }, sc.out_fault),
+                    ));
+                    continue;
+                }
             };
             match regenerate(&sc, js) {
                 Err(e) => out.violate(Violation::new(
@@ -151,6 +166,6 @@ impl Check for C11e3 {
         vec!["the SVG is regenerated through the library's own as_svg (that as_svg is right is the library part of C11); what is checked here is that the two files written by one run belong together".into()]
     }
     fn expected_probes(&self) -> Vec<&'static str> {
-        vec!["probe.cli_file_pairs_checked", "fault.F-shortwrite(file writes cut short by the simulated file)", "probe.executions_with_ge2_active_workers"]
+        vec!["probe.runs_that_failed_under_a_disk_fault", "probe.cli_file_pairs_checked", "fault.F-shortwrite(file writes cut short by the simulated file)", "probe.executions_with_ge2_active_workers"]
     }
 }
